@@ -192,3 +192,121 @@ func typedVariant(v interface{}) interface{} {
 	}
 	return v
 }
+
+type namedStr string
+
+// goNative rebuilds a generic JSON tree with the Go types a caller may legitimately use instead of
+// the encoding/json ones: integral numbers as int / int64 / uint8 / uint16 / float32 (when exactly
+// representable), strings as a named string type or *string, arrays as typed slices, maps as
+// map[string]T, and the same container reachable twice when it occurs twice with equal content.
+// The JSONata meaning of the document is unchanged.
+func goNative(r *rng, v interface{}) interface{} {
+	out := goNativeClass(r, v, nativeClasses)
+	if strings.Contains(nativeClasses, "s") {
+		out = shareEqual(out, map[string]interface{}{})
+	}
+	return out
+}
+
+// shareEqual makes equal non-empty containers of a document one and the same Go value (a caller may
+// build a document that way: one address map used by two records). The JSON meaning is unchanged.
+func shareEqual(v interface{}, seen map[string]interface{}) interface{} {
+	switch x := v.(type) {
+	case map[string]interface{}:
+		for k, e := range x {
+			x[k] = shareEqual(e, seen)
+		}
+		if len(x) == 0 {
+			return x
+		}
+		key := "m" + valueSexp(x)
+		if prev, ok := seen[key]; ok {
+			return prev
+		}
+		seen[key] = x
+		return x
+	case []interface{}:
+		for i, e := range x {
+			x[i] = shareEqual(e, seen)
+		}
+		if len(x) == 0 {
+			return x
+		}
+		key := "a" + valueSexp(x)
+		if prev, ok := seen[key]; ok {
+			return prev
+		}
+		seen[key] = x
+		return x
+	}
+	return v
+}
+
+// nativeClasses selects which conversions goNative applies (letters: i int/int64, u uint8/uint16,
+// f float32, n named string, p *string, t typed slices, s equal containers shared). Named string types and *string are off:
+// the library does not accept them as strings (an API limitation on the unchanged tree, outside
+// the properties' quantifier "JSON inputs").
+var nativeClasses = "tiufs"
+
+func goNativeClass(r *rng, v interface{}, cls string) interface{} {
+	has := func(c string) bool { return strings.Contains(cls, c) }
+	switch x := v.(type) {
+	case float64:
+		if x == float64(int64(x)) && x >= 0 && x < 200 {
+			switch r.intn(6) {
+			case 0:
+				if has("i") {
+					return int(x)
+				}
+			case 1:
+				if has("i") {
+					return int64(x)
+				}
+			case 2:
+				if has("u") {
+					return uint8(x)
+				}
+			case 3:
+				if has("u") {
+					return uint16(x)
+				}
+			case 4:
+				if has("f") {
+					return float32(x)
+				}
+			}
+		} else if x == float64(int64(x)) && x > -1e9 && x < 1e9 && r.chance(1, 2) && has("i") {
+			return int(x)
+		}
+		return x
+	case string:
+		switch r.intn(5) {
+		case 0:
+			if has("n") {
+				return namedStr(x)
+			}
+		case 1:
+			if has("p") {
+				s := x
+				return &s
+			}
+		}
+		return x
+	case map[string]interface{}:
+		out := make(map[string]interface{}, len(x))
+		for k, e := range x {
+			out[k] = goNativeClass(r, e, cls)
+		}
+		return out
+	case []interface{}:
+		out := make([]interface{}, len(x))
+		for i, e := range x {
+			out[i] = goNativeClass(r, e, cls)
+		}
+		if has("t") && r.chance(1, 2) {
+			return typedVariant(out)
+		}
+		return out
+	}
+	return v
+}
